@@ -65,6 +65,8 @@ def main():
         if getattr(f, '__c20_wrapped__', False):
             continue
         is_method = '.' in f.__qualname__ and '<locals>' not in f.__qualname__
+        if '.' not in f.__qualname__ and f.__name__.startswith('_') and not f.__name__.startswith('__'):
+            continue                                   # private module-level helper: not an entry point of the library
         if f.__name__ in ('__repr__', '__str__', '__len__', '__getitem__', '__iter__', '__next__', '__getattr__', '__setattr__'):
             continue
         wrappers[id(f)] = (f, wrap(q, f, is_method))
